@@ -55,7 +55,7 @@ func ttmlRead(n int, c ttmlCase) ttmlEvent {
 	return ev
 }
 
-var ttmlIndents = []string{"default", "", "\t", "  "}
+var ttmlIndents = []string{"default", "", "\t", "  ", "keys"}
 
 func ttmlWrite(n int, g ttmlx.Truth, indent string) ttmlEvent {
 	p := ttmlx.PoolFor(n)
@@ -64,6 +64,19 @@ func ttmlWrite(n int, g ttmlx.Truth, indent string) ttmlEvent {
 	ev.D.Norm()
 	ev.Post.Norm()
 	s := ttmlx.Build(g, p)
+	if indent == "keys" {
+		// the same list with its definitions stored under map keys that differ from their identifiers: what a style
+		// or region is called is its ID, the key is only where the map keeps it
+		st, rg := s.Styles, s.Regions
+		s.Styles, s.Regions = map[string]*astisub.Style{}, map[string]*astisub.Region{}
+		for k, v := range st {
+			s.Styles["key-"+k] = v
+		}
+		for k, v := range rg {
+			s.Regions["key-"+k] = v
+		}
+		indent = "default"
+	}
 	var buf bytes.Buffer
 	var err error
 	ev.Res, ev.Msg = run.Guard(10*time.Second, func() {
